@@ -47,7 +47,7 @@ func c03(c *Ctx) {
 	n := c.N(10, 120)
 	for i := 0; i < n; i++ {
 		o := gen.Opts{ObjRefs: true, ClassExprs: true, AttributesCmd: true, NonASCII: i%2 == 0, MaxDepth: 3, BlankLines: true,
-			ShorthandElse: true, StmtAfterBlock: true, EmptyBlocks: true, FailSites: i%3 == 0, MultiLineFrags: i%4 == 0}
+			ShorthandElse: true, StmtAfterBlock: true, EmptyBlocks: true, FailSites: i%3 == 0, MultiLineFrags: i%4 == 0, Trailers: i%2 == 1}
 		f := gen.GenFile(newRand(c.R.Int63()), o, 2, c.N(8, 14))
 		prepFile(f)
 		switch i % 3 {
@@ -83,6 +83,9 @@ func c03(c *Ctx) {
 			}
 			if k := strings.Index(src, m.from); k >= 11 && src[k-11:k] == "@attributes" {
 				continue // the argument list of @attributes takes values of any type by design
+			}
+			if k := strings.Index(src, m.from); k >= 6 && src[k-6:k] == "class:" {
+				continue // so does a class list
 			}
 			if c.N(0, 1) == 0 && len(seen) >= 3 {
 				break
